@@ -759,11 +759,13 @@ def check_C16(report, tier, seed, replay=None):
     rng = common.rng_for(seed, "C16")
     drv = common.Driver("ms")
     report.rule = ("announced mechanism lists (all subsets/orders of DIGEST-MD5, PLAIN, LOGIN, OAUTHBEARER mixed with unknown "
-                   "ones, empty) x preferred mechanism (none, each implemented, unknown, lower-case) x unicode credentials "
+                   "ones incl. look-alikes that contain an implemented name, empty) x preferred mechanism (none, each implemented, unknown, lower-case) x unicode credentials "
                    "(non-ASCII, commas, equals, quotes, spaces, empty or non-empty authorisation id) x server verdict; the "
                    "AUTHENTICATE exchange written by the real client is parsed by the strict parser and decoded per mechanism; "
                    "non-trivial = at least two announced mechanisms or non-ASCII/special credentials")
-    pool = [b"DIGEST-MD5", b"PLAIN", b"LOGIN", b"OAUTHBEARER", b"SCRAM-SHA-1", b"GSSAPI", b"X-FOO", b"plain"]
+    # unknown names include look-alikes that CONTAIN or EXTEND an implemented name (an exact, whole-word match is required)
+    pool = [b"DIGEST-MD5", b"PLAIN", b"LOGIN", b"OAUTHBEARER", b"SCRAM-SHA-1", b"GSSAPI", b"X-FOO", b"plain",
+            b"PLAIN-CLIENTTOKEN", b"XOAUTHBEARER", b"X-LOGIN-TOKEN", b"LOGIN2", b"OAUTHBEARER-PLUS", b"XPLAIN"]
     n = 500 if tier == "quick" else 12000
     for i in range(n):
         k = rng.randrange(0, 5)
